@@ -29,10 +29,31 @@ def normalize_tree(tree: ast.Module) -> int:
     """Normal form the rules are written against (semantics-preserving, applied once per parse):
 
     ``t = <expr>; return t`` with ``t`` occurring nowhere else in the function  ->  ``return <expr>``
+    ``if a:`` whose whole body is ``if b: X`` (no else on either)                ->  ``if a and b: X``
+    ``<constant> == x`` / ``<constant> != x``                                    ->  ``x == <constant>`` / ``x != <constant>``
 
     The expression keeps its source position, so reports still point at it.  Returns the
     number of rewrites."""
     n_rw = 0
+    # ``if a:\n    if b: X`` (no else on either, nothing else in the outer body)  ->  ``if a and b: X``
+    changed = True
+    while changed:
+        changed = False
+        for n in ast.walk(tree):
+            if isinstance(n, ast.If) and not n.orelse and len(n.body) == 1 and isinstance(n.body[0], ast.If) and not n.body[0].orelse:
+                inner = n.body[0]
+                vals = (n.test.values if isinstance(n.test, ast.BoolOp) and isinstance(n.test.op, ast.And) else [n.test]) + (inner.test.values if isinstance(inner.test, ast.BoolOp) and isinstance(inner.test.op, ast.And) else [inner.test])
+                new_test = ast.BoolOp(op=ast.And(), values=list(vals))
+                ast.copy_location(new_test, n.test)
+                new_test.end_lineno, new_test.end_col_offset = getattr(inner.test, "end_lineno", None), getattr(inner.test, "end_col_offset", None)
+                n.test, n.body = new_test, inner.body
+                n_rw += 1
+                changed = True
+    # ``<constant> == x`` -> ``x == <constant>`` (likewise !=)
+    for n in ast.walk(tree):
+        if isinstance(n, ast.Compare) and len(n.ops) == 1 and isinstance(n.ops[0], (ast.Eq, ast.NotEq)) and isinstance(n.left, ast.Constant) and not isinstance(n.comparators[0], ast.Constant):
+            n.left, n.comparators = n.comparators[0], [n.left]
+            n_rw += 1
     for fn in [n for n in ast.walk(tree) if isinstance(n, (ast.FunctionDef, ast.AsyncFunctionDef))]:
         counts: dict[str, int] = {}
         for x in ast.walk(fn):
